@@ -324,12 +324,19 @@ func (pe *PEval) run(fn *ssa.Function, args []PVal, bindings []PVal) PResult {
 			case *ssa.TypeAssert:
 				v := get(x.X)
 				dyn := pdynType(v)
-				if dyn == nil {
+				isNilIface := false
+				if k, ok := v.(PConst); ok && k.V == nil {
+					isNilIface = true // a nil interface value has no dynamic type: every assertion fails
+				}
+				if dyn == nil && !isNilIface {
 					return PResult{Err: "type assertion on a value of unknown dynamic type at " + fn.Name()}
 				}
-				match := types.Identical(dyn, x.AssertedType)
-				if types.IsInterface(x.AssertedType) {
-					match = types.Implements(dyn, x.AssertedType.Underlying().(*types.Interface))
+				match := false
+				if !isNilIface {
+					match = types.Identical(dyn, x.AssertedType)
+					if types.IsInterface(x.AssertedType) {
+						match = types.Implements(dyn, x.AssertedType.Underlying().(*types.Interface))
+					}
 				}
 				if x.CommaOk {
 					if match {
@@ -400,7 +407,7 @@ func (pe *PEval) run(fn *ssa.Function, args []PVal, bindings []PVal) PResult {
 						continue
 					}
 				}
-				env[x] = PTerm{"slice", []PVal{get(x.X), pOrNil(x.Low, get), pOrNil(x.High, get)}}
+				env[x] = PTerm{"slice", []PVal{get(x.X), pLow(x.Low, get), pOrNil(x.High, get)}}
 			case *ssa.IndexAddr:
 				if p, ok := get(x.X).(PPtr); ok && len(p.Path) == 0 {
 					if arr, ok := p.Obj.Val.(PArray); ok {
@@ -496,6 +503,14 @@ func (pe *PEval) run(fn *ssa.Function, args []PVal, bindings []PVal) PResult {
 func pOrNil(v ssa.Value, get func(ssa.Value) PVal) PVal {
 	if v == nil {
 		return PConst{nil, nil}
+	}
+	return get(v)
+}
+
+// pLow renders an absent low bound of a slice expression as 0 (s[:n] and s[0:n] are the same expression).
+func pLow(v ssa.Value, get func(ssa.Value) PVal) PVal {
+	if v == nil {
+		return PConst{constant.MakeInt64(0), types.Typ[types.Int]}
 	}
 	return get(v)
 }
@@ -640,6 +655,19 @@ func pbinop(op token.Token, x, y PVal, t types.Type) PVal {
 				}
 				return PConst{constant.BinaryOp(cx.V, o, cy.V), t}
 			}
+		}
+	}
+	// an allocated object, closure or struct value is never nil
+	if op == token.EQL || op == token.NEQ {
+		nonNil := func(v PVal) bool {
+			switch v.(type) {
+			case PPtr, PStruct, PClosure, PSlice, PArray:
+				return true
+			}
+			return false
+		}
+		if (nonNil(x) && oky && cy.V == nil) || (nonNil(y) && okx && cx.V == nil) {
+			return PConst{constant.MakeBool(op == token.NEQ), types.Typ[types.Bool]}
 		}
 	}
 	// nil comparisons
